@@ -4,7 +4,8 @@ from checks.common import *
 LEVEL = "proof"
 RULE = ("per pending server login state (real record, fake record, wrong-password client, second session): every single-bit "
         "flip and (thorough: all 255, quick: 3) single-byte substitutions per offset of the genuine finalization, the "
-        "finalizations of other sessions, all-zero, all-0xff, random, wrong lengths; distinct = distinct (suite, state, message)")
+        "finalizations of other sessions, all-zero, all-0xff, wrong lengths, structured multi-byte alterations (same xor mask / "
+        "+d,-d at two positions, byte swaps, rotations, reversal, complement, randomised head/tail) and 1500+ random strings; distinct = distinct (suite, state, message)")
 EXHAUSTIVE = {"quick": False, "thorough": True}
 ASSUMPTIONS = ["'others rejected' holds up to explicit HMAC collision events (Bad), DESIGN.md 2.2"]
 
@@ -46,6 +47,8 @@ def fin_tamper(ctx, thorough):
             vals = rnd.sample(vals, 3)
         for x in vals:
             reject(st_a, ke3_a[:i] + bytes([x]) + ke3_a[i + 1:], "byte %d := %02x" % (i, x))
+    for label, m in structured_alterations(rnd, ke3_a, 0, L.Nh, n_pairs=(60 if not thorough else 400), n_random=(1500 if not thorough else 6000)):
+        reject(st_a, m, label)
     consts = [bytes(L.Nh), b"\xff" * L.Nh, ctx.tape(L.Nh), ctx.tape(L.Nh)]
     for st, nm, others in ((st_a, "session A", [ke3_b]), (st_b, "session B", [ke3_a]),
                            (st_fake, "fake-record session", [ke3_a, ke3_b]), (st_wrong, "wrong-password session", [ke3_a, ke3_b])):
